@@ -76,7 +76,11 @@ func (w *Writer) Write(data []byte) (n int, err error) {
 		return n, w.err
 	}
 	if w.w != nil {
-		return w.w.Write(data)
+		n, err = w.w.Write(data)
+		if err != nil {
+			w.err = err
+		}
+		return n, err
 	}
 	n = len(data)
 	var num int
@@ -108,7 +112,11 @@ func (w *Writer) Flush() (err error) {
 		return w.err
 	}
 	if w.w != nil {
-		return w.w.Flush()
+		err = w.w.Flush()
+		if err != nil {
+			w.err = err
+		}
+		return err
 	}
 	err = w.lc.Flush()
 	if err != nil {
@@ -125,7 +133,13 @@ func (w *Writer) Close() (err error) {
 		return w.err
 	}
 	if w.w != nil {
-		return w.w.Close()
+		err = w.w.Close()
+		if err != nil {
+			w.err = err
+			return err
+		}
+		w.err = errWriterClosed
+		return nil
 	}
 	err = w.lc.Close()
 	if err != nil {
